@@ -17,24 +17,24 @@ def run(ck, tier, seed):
         return
     ck.add_tlc("SegmentApi(BFS N=4)", r0)
     # the design that has to meet that contract: the link surgery of one justify call, pointer by pointer
-    rj = vlib.tlc("JustifyLinks.tla", "JustifyLinks.cfg", timeout=3000, coverage=False)
+    rj = vlib.tlc("JustifyLinks.tla", "JustifyLinks.cfg" if q else "JustifyLinks_thorough.cfg", timeout=3000, coverage=False)
     if rj.violation:
         ck.violation("TLC: %s violated in JustifyLinks" % rj.violation, {"why": "JustifyLinks model", "trace": vlib.tlc_error_trace(rj.out)})
         return
-    ck.add_tlc("JustifyLinks(N=5, marker linking as in the code)", rj)
+    ck.add_tlc("JustifyLinks(N=%d, marker linking as in the code)" % (5 if q else 8), rj)
     for neg, want in (("JustifyLinks_neg.cfg", ("NoDangling", "ChainRestored")), ("JustifyLinks_neg2.cfg", ("MarkersReachable",))):
         rn = vlib.tlc("JustifyLinks.tla", neg, timeout=900, coverage=False)
         if rn.violation not in want:
             raise vlib.Broken("negative control %s (marker linking as before repair f6b8e79a) not refuted: %r" % (neg, rn.violation))
     raw = os.path.join(tmp, "beh_raw.ndjson")
-    r = vlib.tlc("SegmentApi.tla", "SegmentApi_sim.cfg", out_file=raw, simulate=100, depth=7, seed=seed, workers=4, timeout=3000, coverage=False)
+    r = vlib.tlc("SegmentApi.tla", "SegmentApi_sim.cfg", out_file=raw, simulate=100 if q else 1500, depth=7, seed=seed, workers=4, timeout=3000, coverage=False)
     if r.violation:
         ck.violation("TLC: %s violated in SegmentApi (simulation)" % r.violation, {"why": "SegmentApi model", "trace": vlib.tlc_error_trace(r.out)})
         return
     ck.add_tlc("SegmentApi(simulate N=6, breaks<=2, justifies=3)", r)
     beh = r.emitted
     rng.shuffle(beh)
-    nb = 600 if q else 6000
+    nb = 600 if q else 40000
     beh = beh[:nb]
     bf = os.path.join(tmp, "beh.ndjson")
     open(bf, "w").write("\n".join(json.dumps(b) for b in beh) + "\n")
@@ -77,7 +77,7 @@ def run(ck, tier, seed):
     open(sf, "w").write("\n".join(json.dumps(s) for s in srcs) + "\n")
     trace = os.path.join(tmp, "trace.ndjson")
     exe = vlib.build_harness("san")
-    h = vlib.run_harness(exe, ["segapi", bf, trace, sf, 2 if q else 3], timeout=6000)
+    h = vlib.run_harness(exe, ["segapi", bf, trace, sf, 2 if q else 8], timeout=6000)
     vlib.absorb(ck, h)
     if os.path.exists(trace):
         # a fault (hang, crash) leaves a complete prefix: validate it as far as it goes
